@@ -483,7 +483,15 @@ func TestVerifC27Crash(t *testing.T) {
 			}
 			detail := fmt.Sprintf("cut at %d of %d (k=%d, %s)", st.Off, len(victim.Data), k, class)
 
-			if err := os.WriteFile(vpath, c27Render(victim, st), 0o644); err != nil {
+			rendered := c27Render(victim, st)
+			if rbWouldDivideByZero(rendered) && kit.Known(rbKeyTimescaleZero) {
+				rec.Excluded(rbKeyTimescaleZero)
+				classes["excluded:"+rbKeyTimescaleZero]++
+				continue
+			}
+			// a panic in a goroutine of the handlers kills the process: leave a trace first
+			kit.Journal(fmt.Sprintf("C27 crash state %s zerofill=%v victim=%s\nspec: %s\n", detail, st.ZeroFill, vpath, desc))
+			if err := os.WriteFile(vpath, rendered, 0o644); err != nil {
 				t.Fatalf("write: %v", err)
 			}
 			ex := c27ExpectFor(disk, spec, victim, k, st.Off)
